@@ -111,6 +111,9 @@ def _exchange(rng, index, ex, alg, enc, form, res, tr, mode):
                 cell["rcpts"][i] = (h, cell["rkeys"][i])
         cell["conf"] = KeyConf(rng.pick(["set", "callable-key", "callable-set"]), list(cell["rkeys"]), private=True)
     zipped = "zip" in cell["protected"]
+    if form != "compact" and rng.chance(0.1):
+        cell["aad"] = b""        # an AAD of length zero is still an optional AAD the caller may pass
+        res.probe("empty-aad")
     pt = _plaintext(rng.sub("pt"), zipped)
     if any(a in rjwe.PBES2 for a in cell["algs"]) and rng.chance(0.5):
         # caller-supplied salt input
